@@ -494,19 +494,3 @@ Proof.
 Qed.
 Print Assumptions int_to_text_correct.
 
-(* ---------- the side conditions hold for the data generated from the Rust source ---------- *)
-From LSGen Require GenSrc.
-
-Lemma generated_lut_ok : lut_ok GenSrc.dec_digits_lut = true.
-Proof. vm_compute. reflexivity. Qed.
-
-Lemma generated_tables_ok :
-  check_table GenSrc.digit_table_u8 0 255 = true /\
-  check_table GenSrc.digit_table_i8 (-128) 127 = true /\
-  check_table GenSrc.digit_table_u16 0 65535 = true /\
-  check_table GenSrc.digit_table_i16 (-32768) 32767 = true /\
-  check_table GenSrc.digit_table_u32 0 4294967295 = true /\
-  check_table GenSrc.digit_table_i32 (-2147483648) 2147483647 = true /\
-  check_table GenSrc.digit_table_u64 0 18446744073709551615 = true /\
-  check_table GenSrc.digit_table_i64 (-9223372036854775808) 9223372036854775807 = true.
-Proof. repeat split; vm_compute; reflexivity. Qed.
